@@ -356,10 +356,10 @@ end Monitor
     Thread object `j` creates the thread with id `j`. -/
 namespace Thr
 
-inductive Op | start (j : Tid) | join (j : Tid)
+inductive Op | start (j : Tid) | join (j : Tid) | dtor (j : Tid)
 deriving DecidableEq, Repr
 
-inductive Pc | idle | create (j : Tid) | join (j : Tid)
+inductive Pc | idle | create (j : Tid) | join (j : Tid) | dtor (j : Tid)
 deriving DecidableEq, Repr
 
 inductive Status | none | created | running | finished (v : Nat)
@@ -377,8 +377,11 @@ structure St where
   status : Tid → Status
   pc : Tid → Pc
   ret : Tid → Option Val
+  /-- how often pthread_create may still fail (EAGAIN); an arbitrary parameter -/
+  cfail : Nat
 
-def init : St := ⟨fun _ => false, fun t => if t = 0 then .running else .none, fun _ => .idle, fun _ => none⟩
+def init (cfail : Nat := 0) : St :=
+  ⟨fun _ => false, fun t => if t = 0 then .running else .none, fun _ => .idle, fun _ => none, cfail⟩
 
 def done (s : St) (t : Tid) (v : Val) : St := { s with pc := upd s.pc t .idle, ret := upd s.ret t (some v) }
 
@@ -394,23 +397,34 @@ def step (s : St) (t : Tid) : Act → Option St
         if s.handle j then some (done s t (.bool false)) else some { s with ret := upd s.ret t none, pc := upd s.pc t (.create j) }
       | .join j =>       -- if(!thread) return 0;
         if s.handle j then some { s with ret := upd s.ret t none, pc := upd s.pc t (.join j) } else some (done s t (.num 0))
+      | .dtor j =>       -- Thread::~Thread(): if(thread) join();
+        if s.handle j then some { s with ret := upd s.ret t none, pc := upd s.pc t (.dtor j) } else some (done s t .unit)
     else none
   | .api (.run alt) =>
-    if alt ≠ 0 then none else
     match s.pc t with
     | .idle => none
-    | .create j =>       -- pthread_create(...) (assumed to succeed); this->thread = handle; return true
-      if s.status j = .none then
-        some (done { s with status := upd s.status j .created, handle := upd s.handle j true } t (.bool true))
+    | .create j =>
+      if alt = 0 then      -- pthread_create(...) == 0; this->thread = handle; return true
+        if s.status j = .none then
+          some (done { s with status := upd s.status j .created, handle := upd s.handle j true } t (.bool true))
+        else none
+      else if alt = 1 then -- pthread_create(...) != 0: return false (no thread, `thread` stays 0)
+        if s.cfail > 0 then some (done { s with cfail := s.cfail - 1 } t (.bool false)) else none
       else none
     | .join j =>         -- pthread_join(thread, &retval); thread = 0; return (uint)(intptr_t)retval
+      if alt ≠ 0 then none else
       match s.status j with
       | .finished v => some (done { s with handle := upd s.handle j false } t (.num v))
       | _ => none
+    | .dtor j =>         -- the join inside the destructor; the result is dropped
+      if alt ≠ 0 then none else
+      match s.status j with
+      | .finished _ => some (done { s with handle := upd s.handle j false } t .unit)
+      | _ => none
 
-inductive Reach : St → Prop
-  | init : Reach init
-  | step {s s' t a} : Reach s → step s t a = some s' → Reach s'
+inductive Reach (cfail : Nat) : St → Prop
+  | init : Reach cfail (init cfail)
+  | step {s s' t a} : Reach cfail s → step s t a = some s' → Reach cfail s'
 
 end Thr
 
